@@ -129,9 +129,10 @@ class PyFn(V):
 
 class Iter(V):
     """lazy iterator: source items + position + adaptor chain"""
-    __slots__=('items','pos','adapt','back','inner','extra')
+    __slots__=('items','pos','adapt','back','inner','extra','lazy')
     def __init__(self,items,adapt=None):
         self.items=list(items); self.pos=0; self.adapt=list(adapt or []); self.back=len(self.items); self.inner=None; self.extra=None
+        self.lazy=None      # hash-map source whose iteration order has not been chosen yet: the mode ('all' / 'rot'); see models.force_order
 
 class Opaque(V):
     __slots__=('kind','p')
